@@ -31,11 +31,14 @@ from common import Sym, dumps, loads, opt, impl, run_model, unhx
 import astwire
 import irwire
 import fam_merge
+import fam_parseast
 import fam_parsesig
 
 ID = "C07"
 COQ_PROP = "C07"
-FAMILIES = [(fam_parsesig, 2500, 30000), (fam_merge, 1200, 15000)]
+# (parseast: parse.class_ on class bodies - annotated attributes, plain / multiple-target assignments, attributes bound
+# twice, documented or not - against coq/model/ParseAst.v: the order and the values of what a class body contributes)
+FAMILIES = [(fam_parsesig, 2500, 30000), (fam_merge, 1200, 15000), (fam_parseast, 1500, 12000)]
 TECHNIQUE = ("Coq proof (names/order of parse.function's merge characterised exactly, unbounded in the number of "
              "parameters; per-parameter precedence/defaults/annotations under a boolean guard; refutation witness) "
              "+ differential correspondence of ParseSig.v/Merge.v against parse.function, _merge_inner_function, "
@@ -44,10 +47,11 @@ TRUSTED = [
     "the docstring-derived IR is an input of the model: what the docstring says about each parameter is parse.docstring's own reading (docstring parser: another layer)",
     "ParseSig.show_expr / lit_eval / py_signature model CPython (ast.unparse, ast.literal_eval, inspect.signature) on the PyAst fragment; validated by the parsesig family, not proved",
     "needs_quoting is used through its frozen model Defaults.needs_quoting (type-expression parser TyExpr)",
-    "class level (parse.class_ + merge_inner_function): the class IR that _merge_inner_function starts from is taken from the real parse.class_; only the merge is modelled",
+    "class level (parse.class_ + merge_inner_function): the class IR that _merge_inner_function starts from is taken from the real parse.class_; only the merge is modelled (parse.class_ itself is compared with coq/model/ParseAst.v by the parseast family; the C07 theorems do not rest on that model)",
     "oracle: free names in generated definitions are executed as stub objects whose repr reconstructs their source",
     "oracle: what a ReST docstring says when a :type field stands directly before the :param/:cvar entry it belongs to is parse.docstring's reading of the same fields in the usual order (canon_field_order)",
     "oracle (history stratum): 'parsed alone' means parsed in a worker forked from a process that has only imported doctrans",
+    "oracle (class attributes): Python's view of the attributes of a class is vars(cls) (functions, descriptors, nested classes and dunder names left out) and __annotations__; when the class docstring names attributes that are not the leading attributes of the body in body order, only the order of the attributes it does not name is judged (parse.class_ lists named attributes first: reported finding)",
 ]
 NONESTR = "```(None)```"
 NONE_LIKE = (None, "None", NONESTR)
@@ -230,7 +234,11 @@ def check_class_attrs(tree, cls, ir_params, doc_params, init_names=None):
     doc_params: what the class docstring says; init_names: names of the parameters of the merged __init__ (None: not merged;
     for those names value, type and prose are judged by check_params)."""
     vs, anns = _py_attrs(cls)
-    valued = [n for n, _ in vs]
+    # (a name first annotated without a value and bound later has no single place in Python's view: not ordered here)
+    late = {e.target.id for e in tree.body if isinstance(e, ast.AnnAssign) and e.value is None and isinstance(e.target, ast.Name)}
+    valued = [n for n, _ in vs if n not in late]
+    vs = [(n, v) for n, v in vs if n not in late]
+    anns = [n for n in anns if n not in late or n not in dict(vars(cls))]
     ann_only = [n for n in anns if n not in set(valued)]
     doc_params = doc_params or {}
     for n in valued + ann_only:
@@ -289,9 +297,16 @@ def class_attrs_hold(case):
     except Exception as e:  # noqa
         return None, "docstring parser raises %s" % type(e).__name__
     init = fam_parsesig._walk_find(tree, "__init__")
-    init_names = None if init is None else \
-        {x.arg for x in init.args.args + init.args.kwonlyargs} | ({init.args.kwarg.arg} if init.args.kwarg else set())
+    init_names = None
+    if init is not None:   # names whose value / type / prose may come from the __init__: its parameters and what its docstring names
+        init_names = {x.arg for x in init.args.args + init.args.kwonlyargs} | ({init.args.kwarg.arg} if init.args.kwarg else set())
+        try:
+            init_names |= set(((_doc_reading(ast.get_docstring(init)) or {}).get("params") or {}))
+        except Exception:  # noqa  the merge is judged by the points of kind "class"
+            init_names = False
     for label, kw, names in (("class", {}, None), ("class merged with __init__", {"merge_inner_function": "__init__"}, init_names)):
+        if names is False:
+            continue
         try:
             ir = m.parse.class_(copy.deepcopy(tree), **kw)
         except Exception as e:  # noqa
@@ -589,30 +604,71 @@ GN_HEAVY = ["google", "numpy", "google", "numpy", "google", "numpy", "google", "
 def gen_points(rng, n, batch=0):
     """n definitions of the standard mix (field order and documented defaults in every style; a few damaged docstrings),
     followed by `batch` definitions of the batch mix: mostly Google / numpydoc docstrings, many documented defaults, more
-    damaged docstrings (a batch in which some definitions are rejected and the ones after them are well-formed)"""
+    damaged docstrings (a batch in which some definitions are rejected and the ones after them are well-formed).
+    In both parts: classes whose body mixes annotated and plain attributes (each is two points: kind "class" and kind
+    "classattrs"), and groups of 2-4 definitions - functions, methods, classes - that share their docstring text while
+    their signatures differ, next to each other or with one or two other definitions in between."""
     pts = []
+
+    def add_function(src, tags):
+        if not fam_parsesig._ok_source(src):
+            return False
+        pts.append({"kind": "function", "src": src, "tags": tags})
+        return True
+
+    def add_class(src, tags, attrs=False):
+        if not fam_parsesig._ok_source(src) or "*args" in src:
+            return False
+        pts.append({"kind": "class", "src": src, "tags": tags})
+        if attrs:
+            pts.append({"kind": "classattrs", "src": src, "tags": tags + ["classattrs"]})
+        return True
+
     while len(pts) < n + batch:
         std = len(pts) < n
         kw = dict(receiver_names=0.08, type_first=0.3, gn_defaults=0.3, malformed=0.04) if std else \
             dict(receiver_names=0.03, type_first=0.3, gn_defaults=0.5, malformed=0.4, dmodes=GN_HEAVY)
         extra = [] if std else ["batch"]
         r = rng.random()
-        if r < 0.8:
+        if r < 0.68:
             src, info = fam_parsesig.gen_def(rng, allow_vararg=False, **kw)
-            if not fam_parsesig._ok_source(src):
-                continue
-            pts.append({"kind": "function", "src": src, "tags": info["tags"] + extra})
-        else:
+            add_function(src, info["tags"] + extra)
+        elif r < 0.82:
             src, tags = fam_parsesig.gen_class(rng, class_types=0.4, **kw)
-            if not fam_parsesig._ok_source(src) or "*args" in src:
-                continue
-            pts.append({"kind": "class", "src": src, "tags": tags + extra})
+            add_class(src, tags + extra)
+        elif r < 0.90:
+            for src, tags in fam_parsesig.gen_attr_classes(rng, 1, **kw):
+                add_class(src, tags + extra, attrs=True)
+        else:
+            # a group sharing its docstring text
+            k = rng.choice([2, 2, 3, 4])
+            spread = rng.random() < 0.3
+            g = rng.random()
+            if g < 0.45:      # functions
+                members = [("function", s_, i_["tags"]) for s_, i_ in fam_parsesig.gen_def_variants(rng, k, kind="static", **kw)]
+            elif g < 0.75:    # methods
+                members = [("function", s_, i_["tags"]) for s_, i_ in
+                           fam_parsesig.gen_def_variants(rng, k, kind=rng.choice(["self", "self", "cls"]), **kw)]
+            else:             # classes: the same class docstring and the same __init__ docstring
+                members = [("class", s_, t_) for s_, t_ in fam_parsesig.gen_attr_classes(rng, k, **kw)]
+            for j, (kind, src, tags) in enumerate(members):
+                tags = tags + extra + ["shared-doc-group"]
+                if kind == "function":
+                    add_function(src, tags)
+                else:
+                    add_class(src, tags, attrs=True)
+                if spread and j + 1 < len(members):
+                    for _ in range(rng.choice([1, 2])):
+                        src2, info2 = fam_parsesig.gen_def(rng, allow_vararg=False, **kw)
+                        add_function(src2, info2["tags"] + extra)
     return pts
 
 
 def _model_requests(p):
     """wire requests for one point, or None when the model has nothing to say (class level / docstring parser raises)"""
     m = impl()
+    if p["kind"] == "classattrs":      # the class body is not modelled (TRUSTED): every failure there is unclassified
+        return None
     tree = ast.parse(p["src"]).body[0]
     if p["kind"] == "function":
         fd = tree
@@ -643,7 +699,7 @@ def _model_requests(p):
 
 
 def oracle(rng, tier):
-    n, nb = (700, 400) if tier == "quick" else (12000, 5000)
+    n, nb = (800, 500) if tier == "quick" else (13500, 6000)
     pts = gen_points(rng, n, nb)
     reqs, idx = [], []
     for i, p in enumerate(pts):
@@ -680,6 +736,9 @@ def oracle(rng, tier):
             hist["skipped-unmodelled:" + ("holds" if ok else "fails")] += 1
             continue
         hist[p["kind"] + ":" + ("holds" if ok else "fails") + ":" + (cls or "in-guard")] += 1
+        for t in p["tags"]:
+            if t.startswith(("shared-doc", "attr-pattern:", "class-doc:")) or t in ("attr-rebound", "annotation-only"):
+                hist["stratum:" + t] += 1
         judged[i] = (ok, what, cls)
         if cls is None and ok and len(p["tags"]) >= 2:
             seen.add(p["src"])
@@ -700,7 +759,7 @@ def oracle(rng, tier):
     cfgs = env_configs(rng, tier)
     from concurrent.futures import ThreadPoolExecutor
     with ThreadPoolExecutor(max_workers=min(8, len(cfgs) + 1)) as ex:
-        hjob = ex.submit(history_failures, pts, hist)
+        hjob = ex.submit(history_failures, [p for p in pts if p["kind"] != "classattrs"], hist)
         results = list(ex.map(lambda c: run_in_child(sub, c[0], c[1], c[2]), cfgs))
         hfail, hevals = hjob.result()
     failures.extend(hfail)
@@ -725,7 +784,10 @@ def oracle(rng, tier):
     return {
         "evaluations": len(pts) + env_evals,
         "distinct_nontrivial": len(seen),
-        "rule": "every judged point is judged again in child interpreters started with -O, -OO (flag or PYTHONOPTIMIZE) "
+        "rule": "classes whose body mixes annotated and plain attributes (alternating, partly documented, with and without "
+                "__init__, attributes bound twice) judged against vars(cls) / __annotations__; groups of 2-4 functions / methods / "
+                "classes sharing one docstring text with different signatures inside the one-process batch; "
+                "every judged point is judged again in child interpreters started with -O, -OO (flag or PYTHONOPTIMIZE) "
                 "and other PYTHONHASHSEED values; the whole batch (including definitions whose damaged docstring is rejected) "
                 "is parsed in one process and every definition's result compared with the same source parsed alone in a "
                 "freshly forked worker; ReST :type fields before or after their :param/:cvar entry; documented defaults in "
